@@ -450,11 +450,12 @@ class eval_abs(object):
     def eval_op_rotl_wflag(self, args, op_size, cast_int):
         r = args[1]&0x1F
         r %=op_size+1
-        r = uint64(r)
-        op_size = uint64(op_size)
-        tmpa = uint64((args[0]<<1) | args[2])
-        rez = (tmpa<<r) | (tmpa >> (op_size+uint64(1)-r))
-        return rez
+        # (op_size+1)-bit quantity operand:carry, on plain integers: the
+        # operand's own modular type would drop its most significant bit
+        r = int(r)
+        tmpa = (int(args[0])<<1) | (int(args[2])&1)
+        rez = (tmpa<<r) | (tmpa >> (op_size+1-r))
+        return rez & ((1<<(op_size+1))-1)
 
     def eval_op_rotl_wflag_rez(self, args, op_size, cast_int):
         return self.eval_op_rotl_wflag(args, op_size, cast_int)>>1
@@ -464,11 +465,10 @@ class eval_abs(object):
     def eval_op_rotr_wflag(self, args, op_size, cast_int):
         r = args[1]&0x1F
         r %=op_size+1
-        r = uint64(r)
-        op_size = uint64(op_size)
-        tmpa = uint64((args[0]<<1) | args[2])
-        rez = (tmpa>>r)  | (tmpa << (op_size+uint64(1)-r))
-        return rez
+        r = int(r)
+        tmpa = (int(args[0])<<1) | (int(args[2])&1)
+        rez = (tmpa>>r)  | (tmpa << (op_size+1-r))
+        return rez & ((1<<(op_size+1))-1)
 
     def eval_op_rotr_wflag_rez(self, args, op_size, cast_int):
         return self.eval_op_rotr_wflag(args, op_size, cast_int)>>1
